@@ -10,7 +10,7 @@ Generated
   quick    `quick_tidal_dissipation` states (shared generator of C10: l_max 2..3 (thorough ..7), truncation
            levels, spin states, obliquity, every rheology incl. CPL/CTL, scalar/array).
   solver   the same uniform body as `formula`, solved by `TidalPy.RadialSolver.radial_solver`
-           (one solid static layer, Kamata starting conditions, DOP853, bulk modulus 10^[6,8] x max(|mu~|,
+           (one solid static layer, Kamata starting conditions, DOP853, bulk modulus 10^[5,7] x max(|mu~|,
            rho g R) i.e. effectively incompressible - the static/incompressible combination itself raises
            NotImplementedError -, r0/R in [0.05,0.3], 20..80 slices, complex shear mu~ = 1/J).
 
@@ -30,11 +30,13 @@ Oracles
              distinct frequency signatures of degree l (harness enumeration, see tides_common.mode_sum; for l = 2,
              synchronous rotation, that is the closed form at the single frequency n): 1e-11 relative to |k|
              (the repository evaluates J through the jitted rheology function, the harness through its
-             .py_func: libm vs. LLVM pow/exp differ by <= 1e-15; measured worst 4e-15).
-  solver     |k_RS - k_closed| <= 1e-6 + 50 delta + 30 (|mu~| + rho g R)/K,  delta = |k(rtol=1e-8) - k(rtol=1e-10)|;
-             discarded (counted) if a solve reports success=False or delta > 1e-4 (DESIGN C01 tolerance).
-             Measured: delta <= 1e-7, error <= 2e-8 at K = 1e6 x; a wrong effective-rigidity coefficient moves
-             k by 1e-2..1.
+             .py_func: libm vs. LLVM pow/exp differ by <= 1e-15; measured worst 5.8e-16).
+  solver     |k_RS - k_closed| <= 1e-6 + 50 delta + 3 (|mu~| + rho g R)/K,  delta = |k(rtol=1e-7) - k(rtol=1e-9)|
+             (atol = 1e-4 rtol); discarded (counted) if a solve reports success=False or delta > 1e-4.
+             Calibration (105 generated cases): delta <= 5e-9, error <= 1.6e-7 and <= 0.015 (|mu~|+rho g R)/K, i.e.
+             <= 0.5 % of the tolerance; the precedence defect a47eb3a moves k by 1e-3 (stiff) .. 0.3 (intermediate).
+  Calibration of the closed-form clauses (3000 generated cases): rigidity 3.6e-16, love 3.0e-16 x condition number,
+  l2 helpers bit-identical, quick 5.8e-16.
 
 Non-trivial: 0.01 < |m_l/(J mu)| < 100 (k neither saturated at 3/(2(l-1)) nor lost in rounding).
 
@@ -66,7 +68,7 @@ LEVEL_NOTE = ('Trusts mpmath/Fraction arithmetic and the harness mode enumeratio
               'heating rate); the radial-solver binary is the one present in /repo (cannot be regenerated from .pyx); '
               'solver cases use a finite bulk modulus >= 1e6 x max(|mu|, rho g R) as "incompressible", with the measured '
               'compressibility correction in the tolerance.')
-CASES = {'quick': 6400, 'thorough': 600000}
+CASES = {'quick': 6400, 'thorough': 200000}
 SHARDS = {'quick': 8, 'thorough': 16}
 REL_TOL = 1.0e-14
 QUICK_TOL = 1.0e-11
@@ -78,7 +80,7 @@ RULE = ('Hypothesis draws kind (formula | quick | solver), degree l in 2..7, g, 
 ASSUMPTIONS = ['reference: k_l = 3/(2(l-1))/(1+m_l/(J mu)), m_l = (2l^2+4l+3) mu/(l rho g R), evaluated with Fraction / mpmath (40 digits)',
                'REL_TOL=1e-14 relative (x analytic condition number 1+|z|/|1+z|)',
                'quick clause 1e-11 relative; harness averages the closed form over the repo grouping signatures',
-               'solver clause: 1e-6 + 50*delta + 30(|mu|+rho g R)/K, delta from rtol 1e-8 vs 1e-10 solves; unconverged solves discarded']
+               'solver clause: 1e-6 + 50*delta + 3(|mu|+rho g R)/K, delta from rtol 1e-7 vs 1e-9 solves; unconverged solves discarded']
 
 FORMULA_RHEOS = ['maxwell', 'newton', 'voigt', 'burgers', 'andrade', 'sundberg', 'andrade_freq', 'sundberg_freq',
                  'elastic', 'off', 'fixed_q', 'raw']
@@ -169,9 +171,9 @@ def strategy(tier):
         'pts': st.lists(st.fixed_dictionaries({'log_ml': st.floats(-2.0, 3.0), 'log_wtau': st.floats(-3.0, 4.0),
                                                'log_freq': st.floats(-7.0, -3.0)}), min_size=1, max_size=1),
         'r0_frac': st.floats(0.05, 0.3), 'slices': st.integers(20, 80), 'log_K_factor': st.floats(5.0, 7.0)})
-    quick = tc.tide_case_strategy(tier, kinds=('single',)).map(lambda c: dict(c, kind='quick'))
+    quick = tc.tide_case_strategy(tier, kinds=('single',), finding_weight=0.25).map(lambda c: dict(c, kind='quick'))
     kinds = [formula, quick, solver]
-    weights = [40, 8, 1] if tier == 'quick' else [30, 16, 2]
+    weights = [40, 8, 1] if tier == 'quick' else [40, 6, 2]
     return tc.weighted(kinds, weights)
 
 
@@ -445,7 +447,7 @@ def _evaluate_solver(case):
     zabs = abs(eff / (Jj * mj))
     c.label('regime:stiff' if zabs > 10 else ('regime:soft' if zabs < 0.1 else 'regime:mid'))
     c.nontrivial = 0.01 < zabs < 100.0
-    tol = 1e-6 + 50.0 * delta + 30.0 * (abs(mu_c) + rho * g * R) / K
+    tol = 1e-6 + 50.0 * delta + 3.0 * (abs(mu_c) + rho * g * R) / K
     err = abs(k2 - k_closed)
     c.check(err <= tol, {'clause': 'solver', 'what': 'k_l'},
             'l=%d R=%r rho=%r mu~=%r K=%r: radial_solver k=%r, closed-form helper k=%r, |diff|=%.3e tol=%.3e (delta=%.1e)'
